@@ -63,6 +63,31 @@ Theorem C09_find_awaiting : forall c k r s e,
 Proof. exact find_awaiting. Qed.
 Print Assumptions C09_find_awaiting.
 
+(* the matching ready answer: the registration becomes Registered with the driver's fields, the on_new_* callback fires
+   once; a duplicated or late ready answer (registration no longer Awaiting) changes nothing and fires nothing *)
+Theorem C09_ready_answer_publication : forall corr orig stream session limit chstat s e,
+  lookup corr (pubs s) = Some e -> e_status e = Awaiting ->
+  exists s', on_event (EvPubReady corr orig stream session limit chstat) s = (s', [CbNewPub corr stream session (e_a1 e)], false) /\
+    lookup corr (pubs s') = Some (set_ready session limit chstat orig (e_obj e) e).
+Proof. exact ready_answer_pub. Qed.
+Print Assumptions C09_ready_answer_publication.
+Theorem C09_ready_answer_subscription : forall corr chstat s e,
+  lookup corr (subs s) = Some e -> e_status e = Awaiting ->
+  exists s' e', on_event (EvSubReady corr chstat) s = (s', [CbNewSub corr (e_a2 e) (e_a1 e)], false) /\
+    lookup corr (subs s') = Some e' /\ e_status e' = Registered /\
+    e_obj e' = Some (mkObj false (-1) false [] chstat 0 0).
+Proof. exact ready_answer_sub. Qed.
+Print Assumptions C09_ready_answer_subscription.
+Theorem C09_duplicate_ready_ignored : forall corr chstat s e,
+  lookup corr (subs s) = Some e -> e_status e <> Awaiting -> on_event (EvSubReady corr chstat) s = (s, [], false).
+Proof. exact ready_answer_not_awaiting_sub. Qed.
+Print Assumptions C09_duplicate_ready_ignored.
+Theorem C09_duplicate_publication_ready_ignored : forall corr orig stream session limit chstat s e,
+  lookup corr (pubs s) = Some e -> e_status e <> Awaiting ->
+  on_event (EvPubReady corr orig stream session limit chstat) s = (s, [], false).
+Proof. exact ready_answer_not_awaiting_pub. Qed.
+Print Assumptions C09_duplicate_publication_ready_ignored.
+
 (* first lookup after the ready answer: a new handle, from then on held *)
 Theorem C09_find_ready : forall c k r s e,
   k <> KDest -> closed s = false -> lookup r (getm k s) = Some e ->
